@@ -6,7 +6,7 @@
     with the set of complexes the construction may return.
  2. sprips_cases: every case on the real Sparse_rips_complex (distance matrix / points + functor, several runs because the
     starting point is random inside the library): the returned complex must be a member of the set.
- 3. sprips_record + Trace_SparseRips: random metrics on 5-7 points, the recorded complexes are judged by TLC (validity,
+ 3. sprips_record + Trace_SparseRips: random metrics on 5-8 points, the recorded complexes are judged by TLC (validity,
     subcomplex, interleaving of the recomputed diagrams, membership in the construction).
  4. self-test of the binding: one corrupted expectation and one corrupted recorded event must be rejected.
 """
@@ -27,13 +27,13 @@ BIG = 1000000
 QUICK = [
     ("n4_eps34", "MC_SparseRips_q34.cfg", "4 points, distances 3*{1..4}, one metric per relabelling class; eps=3/4; mini/maxi"),
     ("n4_eps12", "MC_SparseRips_q12.cfg", "4 points, distances {1,2,5,9}, per class; eps in {1/2,1/4,1,2}; mini/maxi"),
-    ("n5_eps12", "MC_SparseRips_q5.cfg", "5 points, distances {1,5,9}, per class; eps=1/2"),
+    ("n5_eps12", "MC_SparseRips_q5.cfg", "5 points, distances {1,6,9}, per class; eps=1/2"),
 ]
 THOROUGH = [
     ("n4_eps34_all", "MC_SparseRips_t34.cfg", "4 points, distances 3*{1..4}, EVERY labelled metric; eps=3/4; mini/maxi"),
     ("n4_eps12_wide", "MC_SparseRips_t12.cfg", "4 points, distances {1,2,3,5,7,9}, per class; eps in {1/2,1/4,1,2}; mini/maxi"),
     ("n5_eps12", "MC_SparseRips_t5a.cfg", "5 points, distances {1,5,6,9}, per class; eps=1/2"),
-    ("n5_eps34", "MC_SparseRips_t5b.cfg", "5 points, distances 3*{1,2,3}, per class; eps=3/4"),
+    ("n5_eps34", "MC_SparseRips_t5b.cfg", "5 points, distances 3*{1..4}, per class; eps=3/4"),
 ]
 
 
@@ -135,7 +135,7 @@ def main(tier):
     tdir = os.path.join(work, "traces")
     os.makedirs(tdir, exist_ok=True)
     nfiles = 4 if tier == "quick" else 8
-    vf.run([b_rec, tdir, str(vf.seed()), "36" if tier == "quick" else "700", str(nfiles)], ok_codes=(0, 3))
+    vf.run([b_rec, tdir, str(vf.seed()), "150" if tier == "quick" else "4000", str(nfiles)], ok_codes=(0, 3))
     summ = vf.read_ndjson(os.path.join(tdir, "summary.json"))
     for rec in summ:
         if rec.get("kind") == "crash":
@@ -204,7 +204,7 @@ def main(tier):
                       "subcomplex-with-larger-values and the diagram interleaving (one-sided matching r <= s <= r/(1-eps), unmatched "
                       "death <= birth/(1-eps); also the two-sided bottleneck reading) for EVERY greedy ordering and emits the set of "
                       "complexes the construction may return; the real class is run %d times per constructor form (random start inside "
-                      "the library) and each output must be a member; traces: random metrics on 5-7 points (L1 point clouds, graph "
+                      "the library) and each output must be a member; traces: random metrics on 5-8 points (L1 point clouds, graph "
                       "metrics, two-level cluster metrics), outputs judged by TLC with the same operators; "
                       "distinct_nontrivial = (metric, parameters, dim_max) whose real output differs from the Rips complex" % reps)
     ev.assumptions = ["exact lattice: integer distances, eps in {1/2, 1/4, 3/4 (distances multiples of 3), 1, 2}: every floating point "
@@ -213,7 +213,7 @@ def main(tier):
                       "set of complexes over all greedy orderings",
                       "diagrams over Z2 by the column reduction of Persistence.tla; dimensions < dim_max only (a skeleton has spurious "
                       "top-dimensional classes)",
-                      "bounded: exhaustive on 4-5 points over the listed distance sets; 5-7 points sampled"]
+                      "bounded: exhaustive on 4-5 points over the listed distance sets; 5-8 points sampled"]
     fnd.report(PROP)
     if unknown:
         ev.violations = len(unknown)
